@@ -178,10 +178,10 @@ def renderOutcome (rule : Option Rule) (st : St) : Outcome → String
   | .pass => "pass"
   | .go u dig nn => "go:" ++ toHex u ++ (if dig then ":Digest" else ":Basic") ++ ":ka1" ++
       (if nn then ":nn" ++ epochHex st else "")
-  | .s401b ka =>
+  | .refuse (.s401b ka) =>
     let realm := match rule with | some r => r.realm | none => []
     "401:B:" ++ toHex (str "Basic realm=\"" ++ realm ++ str "\", charset=\"UTF-8\"") ++ kaStr ka
-  | .s401d stale ka =>
+  | .refuse (.s401d stale ka) =>
     match rule with
     | none => "401:-"
     | some r =>
@@ -190,8 +190,8 @@ def renderOutcome (rule : Option Rule) (st : St) : Outcome → String
       if algos &&& 2 = 0 then "401:-" ++ kaStr ka else
       "401:D:" ++ toHex r.realm ++ "/MD5/" ++ epochHex st ++ "/" ++ (if r.secret.isSome then "3" else "2") ++ ".32/q1u" ++
           (if r.userhash then "1" else "0") ++ "s" ++ (if stale ≠ 0 then "1" else "0") ++ kaStr ka
-  | .s400 => "400"
-  | .s500 => "500"
+  | .refuse .s400 => "400"
+  | .refuse .s500 => "500"
 
 /-! ### running a scenario -/
 
